@@ -1431,7 +1431,11 @@ func runEpoch(seed int64, idx int, lane int, tier, directed string, steps int, d
 	if directed == "many-proxies-drop" {
 		extraProxies = 120
 	}
-	ch, ports, err := startClientChild(ip, srv.port, st.addr(), mux, extraProxies)
+	healthProxies := 0
+	if directed == "health-stop" {
+		healthProxies = 200
+	}
+	ch, ports, err := startClientChild(ip, srv.port, st.addr(), mux, extraProxies, healthProxies)
 	if err != nil {
 		fail("harness:client-child", err.Error())
 		return out
@@ -1658,6 +1662,38 @@ func (e *epoch) runDirected(out *epochOut, fail func(key, what string), runWD fu
 			return out
 		}
 		runWD("directed:plugin-users", "StartWorkConn", detail)
+	case "health-stop":
+		// 200 proxies with a tcp health check (half of them against a service that flaps every 300 ms).  Every session is
+		// ended a few milliseconds after it began, i.e. while the first probes of the new wrappers report their verdicts:
+		// Wrapper.Stop closes the notification channel before the monitor has stopped.
+		n := 0
+		for r := 0; r < 8 && e.ch.alive(); r++ {
+			e.step("directed:health-stop", "-", "session ended right after its login while health monitors report")
+			switch []int{0, 1, 0, 1, 2, 0, 1, 3}[r] {
+			case 0:
+			case 1:
+				time.Sleep(time.Duration(e.g.Intn(2000)) * time.Microsecond)
+			case 2:
+				time.Sleep(time.Duration(280+e.g.Intn(60)) * time.Millisecond) // around a flap of the service
+			default:
+				time.Sleep(time.Duration(980+e.g.Intn(60)) * time.Millisecond) // around the second probe
+			}
+			e.dropCurrent(e.g.Intn(2))
+			n++
+			time.Sleep(30 * time.Millisecond)
+			if !e.ch.alive() {
+				break
+			}
+			if _, err := e.newSession(); err != nil {
+				break
+			}
+			e.cur.honest.Store(true)
+		}
+		time.Sleep(50 * time.Millisecond)
+		if e.checkCrash("directed:health-stop") {
+			return out
+		}
+		runWD("directed:health-stop", "-", fmt.Sprintf("%d sessions ended while health monitors reported", n))
 	case "many-proxies-drop":
 		// 136 proxies; the control connection is lost.  Every wrapper's Stop sends a CloseProxy through the transporter into
 		// the dispatcher's 100-slot send channel, which nobody drains any more once the dispatcher has ended.
@@ -1788,12 +1824,16 @@ func (e *epoch) directedXTCP(cs *ctlSess) {
 
 // ---- the driver ----
 
-func startClientChild(ip string, serverPort int, stunAddr string, mux bool, extraProxies int) (*child, []int, error) {
+func startClientChild(ip string, serverPort int, stunAddr string, mux bool, extraProxies int, healthProxies ...int) (*child, []int, error) {
 	m := "0"
 	if mux {
 		m = "1"
 	}
-	c, line, err := startChildProc("client", ip, fmt.Sprint(serverPort), stunAddr, m, fmt.Sprint(extraProxies))
+	hp := 0
+	if len(healthProxies) > 0 {
+		hp = healthProxies[0]
+	}
+	c, line, err := startChildProc("client", ip, fmt.Sprint(serverPort), stunAddr, m, fmt.Sprint(extraProxies), fmt.Sprint(hp))
 	if err != nil {
 		return nil, nil, err
 	}
@@ -1817,10 +1857,10 @@ func runClientBarrage(cfg *hx.RunCfg) error {
 		Tail: "Definition M := Eval vm_compute in mismatches check_case cases.\nPrint M.\n" +
 			"Definition NCLIENT := Eval vm_compute in count_if client_case cases.\nPrint NCLIENT.\n" +
 			"Definition NCLIENTLOGIN := Eval vm_compute in count_if client_login_case cases.\nPrint NCLIENTLOGIN.\n"}
-	lanes := 10
+	lanes := 16
 	perEpoch := 125
 	if cfg.Tier == "thorough" {
-		lanes = 10
+		lanes = 16
 		perEpoch = 160
 	}
 	nEpochs := (cfg.N + perEpoch - 1) / perEpoch
